@@ -715,13 +715,19 @@ impl World {
                 args,
             )
         } else {
-            Ix::new(
+            let mut ix = Ix::new(
                 "swap",
                 "Swap",
                 wa::Swap { token_program: spl_token::ID, token_authority: self.users[user], whirlpool: p.key, token_owner_account_a: self.utok(user, &p.mint_a), token_vault_a: p.vault_a, token_owner_account_b: self.utok(user, &p.mint_b), token_vault_b: p.vault_b, tick_array_0: tas[0], tick_array_1: tas[1], tick_array_2: tas[2], oracle: p.oracle }.to_account_metas(None),
                 wi::Swap { amount, other_amount_threshold: threshold, sqrt_price_limit: limit, amount_specified_is_input: exact_in, a_to_b }.data(),
                 args,
-            )
+            );
+            if p.adaptive {
+                // pools with adaptive fee need the oracle writable (v1 declares it read-only)
+                let i = ix.slot_index("oracle");
+                ix.metas[i].is_writable = true;
+            }
+            ix
         }
     }
 
